@@ -16,3 +16,8 @@ let desc = { fresh = sp_fresh; decode = (if variant = "orig" then sp_decode_into
   render_panics = sp_render_panics; of_spec = (fun _ -> failwith "sip: no spec"); junk_len = 0 }
 let run id ops out = run_generic desc id ops out
 let registered = Registry.register "Lsip" run
+let coq_sp (l : sip) = Printf.sprintf "(mkSp %s %s %s %s %s %s %s %s %s %s %s %s)" (coq_zlist l.sp_contents) (coq_zlist l.sp_payload) (coq_z l.sp_version)
+  (coq_z l.sp_method) (coq_list (coq_pair coq_zlist Lmidutil.coq_zll) l.sp_headers) (coq_zlist l.sp_uri) (coq_bool l.sp_isresp) (coq_z l.sp_code)
+  (coq_zlist l.sp_status) (coq_z l.sp_cseq) (coq_z l.sp_clen) (coq_zlist l.sp_last)
+let registered_coq = Registry.register_coq "Lsip" ("From GP Require Import Base LsipModel.\n",
+  Lmidutil.to_coq_dec ~fresh_name:"sp_fresh" ~dec_name:(fun _ -> "sp_decode_into") ~pr:coq_sp ~decode:(fun _ -> sp_decode_into) ~fresh:sp_fresh)
